@@ -357,6 +357,151 @@ theorem eval_iff_deployed (ops : List Op) (m : String) :
       apply ih _ _ hin
       intro m'; rw [evals_step]; simp
 
+/-! ## the evaluators are a third index: what every history — failing operations included — leaves in it -/
+
+/-- A rejected `add` changes nothing at all: not the list, not the indexes, not the evaluators. -/
+theorem failed_add_changes_nothing (s : State) (d : Def) (h : (add s d).2 ≠ .ok) : (add s d).1 = s := by
+  by_cases h1 : s.byNs.contains d.ns = true
+  · rw [add_ns h1]
+  · by_cases h2 : s.byName.contains d.name = true
+    · rw [add_name h1 h2]
+    · rw [add_fresh h1 h2] at h; exact absurd rfl h
+
+/-- non-vacuity: the second `add` of the same model is rejected -/
+example : (add (add init ⟨"ns", "n", true⟩).1 ⟨"ns", "n", false⟩).2 ≠ .ok := by decide
+
+/-- The key set of the model evaluators never holds a name that is not the name of a stored definition that
+builds. -/
+def EvalsSound (s : State) : Prop := ∀ m ∈ s.evals, ∃ d ∈ s.defs, d.name = m ∧ d.builds = true
+
+theorem evalsSound_step {s : State} (h : EvalsSound s) (op : Op) : EvalsSound (step s op).1 := by
+  intro m hm
+  rw [evals_step] at hm
+  cases op with
+  | deploy =>
+    obtain ⟨d, hd, hb, hn⟩ := hm
+    exact ⟨d, hd, hn, hb⟩
+  | add d =>
+    obtain ⟨hne, hmem⟩ := hm
+    have e : (step s (.add d)).1 = s := failed_add_changes_nothing s d hne
+    rw [e]; exact h m hmem
+  | remove ns name => exact absurd hm id
+  | clear => exact absurd hm id
+  | replace d => exact absurd hm id
+
+theorem evalsSound_reachable (ops : List Op) : EvalsSound (run init ops) := by
+  suffices ∀ s, EvalsSound s → EvalsSound (run s ops) from this init (by intro m hm; cases hm)
+  induction ops with
+  | nil => intro s h; exact h
+  | cons op ops ih => intro s h; exact ih _ (evalsSound_step h op)
+
+/-- The stored list, the namespace index, the name index and the evaluators describe one and the same set after
+**every** history of add / remove / replace / clear / deploy, rejected additions included: the keys of the two
+indexes are exactly the namespaces and the names of the stored definitions, and every evaluator belongs to a stored
+definition that builds. -/
+theorem indexes_describe_one_set (ops : List Op) :
+    (∀ k, k ∈ (run init ops).byNs.keys ↔ ∃ d ∈ (run init ops).defs, d.ns = k) ∧
+    (∀ k, k ∈ (run init ops).byName.keys ↔ ∃ d ∈ (run init ops).defs, d.name = k) ∧
+    (∀ m, canEvaluate (run init ops) m = true → ∃ d ∈ (run init ops).defs, d.name = m ∧ d.builds = true) := by
+  have hinv := inv_reachable ops
+  have hev : EvalsSound (run init ops) := evalsSound_reachable ops
+  refine ⟨fun k => ?_, fun k => ?_, fun m hm => hev m (by simpa [canEvaluate] using hm)⟩
+  · rw [← contains_ns_iff hinv k, Map.contains_iff]
+    simp only [Map.keys, List.mem_map]
+    constructor
+    · rintro ⟨⟨k', d⟩, h, rfl⟩; exact ⟨d, h⟩
+    · rintro ⟨d, h⟩; exact ⟨(k, d), h, rfl⟩
+  · rw [← contains_name_iff hinv k, Map.contains_iff]
+    simp only [Map.keys, List.mem_map]
+    constructor
+    · rintro ⟨⟨k', d⟩, h, rfl⟩; exact ⟨d, h⟩
+    · rintro ⟨d, h⟩; exact ⟨(k, d), h, rfl⟩
+
+/-- What `deploy` makes evaluable depends on the stored list alone — not on what an earlier deploy found, not on
+which models failed to build before. -/
+theorem deploy_depends_on_list_only (s s' : State) (h : s.defs = s'.defs) : (deploy s).evals = (deploy s').evals := by
+  simp only [deploy, h]
+
+/-- Deploying twice is deploying once. -/
+theorem deploy_idempotent (s : State) : deploy (deploy s) = deploy s := rfl
+
+/-- Substituting a stored model — one that failed to build at an earlier deploy, too — by a model of the same
+namespace and name and deploying makes exactly the new version count: it can be evaluated iff it builds. -/
+theorem replace_then_deploy {s : State} (h : Inv s) (d : Def) :
+    canEvaluate (deploy (replace s d).1) d.name = d.builds := by
+  have hr := replace_ok h d
+  have hi : Inv (replace s d).1 := inv_add (inv_remove h _ _) d
+  rw [Bool.eq_iff_iff, deploy_skips_failures]
+  constructor
+  · rintro ⟨e, he, hb, hn⟩
+    have : e = d := eq_of_nodup_map hi.nameNodup he hr.2.1 hn
+    rw [← this]; exact hb
+  · intro hb; exact ⟨d, hr.2.1, hb, rfl⟩
+
+/-- the same after any history, whatever was deployed before (the situation of a repaired model) -/
+theorem replace_then_deploy_after (ops : List Op) (d : Def) :
+    canEvaluate (run init (ops ++ [.replace d, .deploy])) d.name = d.builds := by
+  have e : run init (ops ++ [.replace d, .deploy]) = deploy (replace (run init ops) d).1 := by
+    suffices ∀ s, run s (ops ++ [.replace d, .deploy]) = deploy (replace (run s ops) d).1 from this init
+    induction ops with
+    | nil => intro s; rfl
+    | cons op ops ih => intro s; exact ih _
+  rw [e]; exact replace_then_deploy (inv_reachable ops) d
+
+/-- non-vacuity: a model that does not build is stored and deployed, then replaced by one that does -/
+example : canEvaluate (run init [.add ⟨"ns", "n", false⟩, .add ⟨"ns2", "n2", true⟩, .deploy, .replace ⟨"ns", "n", true⟩, .deploy]) "n" = true := by
+  decide
+
+/-! ## loading a directory -/
+
+theorem mem_defs_add {s : State} {d e : Def} (h : e ∈ s.defs) : e ∈ (add s d).1.defs := by
+  by_cases h1 : s.byNs.contains d.ns = true
+  · rw [add_ns h1]; exact h
+  · by_cases h2 : s.byName.contains d.name = true
+    · rw [add_name h1 h2]; exact h
+    · rw [add_fresh h1 h2]; exact List.mem_append_left _ h
+
+theorem mem_defs_foldl_loadStep {s : State} {e : Def} (ds : List Doc) (h : e ∈ s.defs) :
+    e ∈ (ds.foldl loadStep s).defs := by
+  induction ds generalizing s with
+  | nil => exact h
+  | cons x ds ih =>
+    cases x with
+    | unreadable => exact ih h
+    | model d => exact ih (mem_defs_add h)
+
+/-- Loading a directory: every file that is a model, was accepted by `add` and builds can be evaluated afterwards —
+whatever the other files are (not models at all, models that are rejected, models that fail to build) and wherever
+they stand in the directory order. -/
+theorem load_isolates_failures (pre post : List Doc) (d : Def) (hb : d.builds = true)
+    (hadd : (add (pre.foldl loadStep init) d).2 = .ok) :
+    canEvaluate (load (pre ++ .model d :: post)) d.name = true := by
+  rw [load, deploy_skips_failures]
+  refine ⟨d, ?_, hb, rfl⟩
+  rw [List.foldl_append, List.foldl_cons]
+  apply mem_defs_foldl_loadStep
+  show d ∈ (add (pre.foldl loadStep init) d).1.defs
+  by_cases h1 : (pre.foldl loadStep init).byNs.contains d.ns = true
+  · rw [add_ns h1] at hadd; cases hadd
+  · by_cases h2 : (pre.foldl loadStep init).byName.contains d.name = true
+    · rw [add_name h1 h2] at hadd; cases hadd
+    · rw [add_fresh h1 h2]; simp
+
+/-- non-vacuity: an unreadable file and a model that does not build stand before the valid model -/
+example : (add ([Doc.unreadable, .model ⟨"a", "a", false⟩].foldl loadStep init) ⟨"ns", "n", true⟩).2 = .ok := by decide
+
+/-- The invariant holds for a loaded directory as well. -/
+theorem inv_load (ds : List Doc) : Inv (load ds) := by
+  have : ∀ s, Inv s → Inv (ds.foldl loadStep s) := by
+    induction ds with
+    | nil => intro s h; exact h
+    | cons x ds ih =>
+      intro s h
+      cases x with
+      | unreadable => exact ih s h
+      | model d => exact ih _ (inv_add h d)
+  exact inv_step (this init inv_init) .deploy
+
 /-! ## non-vacuity: a two-model history that exercises the cross-key removal -/
 
 example :
